@@ -1,9 +1,13 @@
 //! avh — the implementation side of the correspondence checks and the property oracles.
 //! Every subcommand runs the REAL library built from /repo's working tree.
+mod locks;
 mod names;
 mod regexes;
 mod spec;
+mod tree;
+mod tree_oracle;
 mod util;
+mod values;
 
 fn main() {
     let args: Vec<String> = std::env::args().collect();
@@ -13,10 +17,13 @@ fn main() {
     }
     util::quiet_panics();
     match args[1].as_str() {
+        "locks" => locks::main(&args[2..]),
         "names" => names::main(&args[2..]),
         "spec-types" => spec::types_main(&args[2..]),
         "spec" => spec::main(&args[2..]),
         "regex" => regexes::main(&args[2..]),
+        "tree" => tree::main(&args[2..]),
+        "values" => values::main(&args[2..]),
         other => {
             eprintln!("unknown subcommand {}", other);
             std::process::exit(2);
